@@ -62,7 +62,7 @@ Section Serial.
         match early with
         | Some e => sel_fails l = true /\ In e (fst (cand_sel cand_field p l))
         | None => forall k key fp, i <= k -> nth_error fields k = Some (key, fp) ->
-                    SlotSet s' m k /\ (fp_nn fp = true -> fails_f fp = false)
+                    FieldDone s' m p k key fp
         end.
   Proof.
     induction l as [|[key fp] tl IH]; intros pre i Ef Lp G s W MO.
@@ -93,7 +93,7 @@ Section Serial.
         eapply (MapOK_mono G s); eauto. }
       assert (Hg : gle G G3) by (destruct St1 as (A1 & _); eapply gle_trans; eauto).
       assert (Hs : sle s s3) by (destruct St1 as (_ & A2 & _); eapply sle_trans; eauto).
-      destruct r as [v|e]; simpl in RO; destruct RO as [Fl X].
+      destruct r as [v|e]; simpl in RO; [destruct RO as (Fl & X & Mu) | destruct RO as [Fl X]].
       + (* the field completed: store, next root field *)
         destruct (set_step G3 s3 m i key fp fields v g0 (w_inv _ _ _ _ _ _ W3) MO3 Hn X) as [St2 SS].
         set (s4 := heap_set m i key v s3) in *.
@@ -112,9 +112,10 @@ Section Serial.
           -- unfold sel_fails in *. simpl. rewrite SF. apply orb_true_r.
           -- rewrite cand_sel_cons_fst. apply in_or_app. now right.
         * intros k key0 fp0 Hk Hnk. destruct (Nat.eq_dec k i) as [->|Hne].
-          -- rewrite Hn in Hnk. injection Hnk as <- <-. split.
-             ++ eapply SlotSet_mono; eauto.
+          -- rewrite Hn in Hnk. injection Hnk as <- <-.
+             eapply FieldDone_mono; [exact Hs'|]. split; [exact SS|]. split.
              ++ intros Nn. rewrite Nn in Fl. exact Fl.
+             ++ destruct St2 as (_ & B2 & _). eapply Forall_impl; [|exact Mu]. intros a. now apply Fired_mono.
           -- apply (M k key0 fp0); auto. lia.
       + (* the field failed and cannot absorb it: executeSelections returns *)
         exists (Some e), s3, G3. split; auto. split; [eapply World_dropR; eauto|].
@@ -156,7 +157,5 @@ Proof.
     unfold ResOK, spec_I. cbn [ps_fails ps_esc]. destruct M as [SF In]. split; auto.
     rewrite fails_inner_obj. exact SF.
   - simpl. apply (finish_ok root G' s' (ROk (GMap m)) jfuel W'); auto.
-    eapply spec_I_obj_path with (q := nil).
-    + apply sel_done; auto. intros k key fp Hk. apply (M k key fp); auto. lia.
-    + intros e X. discriminate.
+    apply sel_done; auto. intros k key fp Hk. apply (M k key fp); auto. lia.
 Qed.
